@@ -412,7 +412,7 @@ fn translate_fn(idx: &Index, reg: &Registry, t: &Target, texts: &BTreeMap<String
             ps.push(format!("{{\"name\": {}, \"lean\": {}, \"rust\": {}}}", jstr(&lean_ident(n)), jstr(&tr.resolve_placeholders(&tr.lean_ty(ty)?)?), jstr(&tr.ty_sig(ty))));
         }
         let rec = format!(
-            "{{\"kind\": \"fn\", \"group\": {}, \"lean\": {}, \"rust\": {}, \"fuel\": {}, \"generics\": [{}], \"const_generics\": [{}], \"params\": [{}], \"ret\": {}}}",
+            "{{\"kind\": \"fn\", \"group\": {}, \"lean\": {}, \"rust\": {}, \"fuel\": {}, \"generics\": [{}], \"const_generics\": [{}], \"params\": [{}], \"ret\": {}, \"abstract\": {}}}",
             jstr(&t.group),
             jstr(&t.lean_name),
             jstr(&f.path),
@@ -420,7 +420,8 @@ fn translate_fn(idx: &Index, reg: &Registry, t: &Target, texts: &BTreeMap<String
             tr.generics.iter().map(|g| jstr(g)).collect::<Vec<_>>().join(", "),
             tr.const_generics.iter().map(|g| jstr(&lean_ident(g))).collect::<Vec<_>>().join(", "),
             ps.join(", "),
-            jstr(&tr.resolve_placeholders(&ret_l)?)
+            jstr(&tr.resolve_placeholders(&ret_l)?),
+            !(abs_sig.is_empty() && tr.abstract_consts.is_empty())
         );
         SIGS.lock().unwrap().push(rec);
     }
